@@ -1447,6 +1447,16 @@ def _unroll_const_loops(block: tuple) -> tuple:
     return tuple(out)
 
 
+def _chained(it: S) -> S:
+    """walking ``itertools.chain(a, b)`` is walking ``a + b``"""
+    if isinstance(it, tuple) and len(it) == 4 and it[0] == "c" and it[1] in (("a", ("g", "itertools"), "chain"), ("g", "chain")) and len(it[2]) >= 2 and not it[3]:
+        p = to_poly(it[2][0])
+        for y in it[2][1:]:
+            p = p + to_poly(y)
+        return p.to_s()
+    return it
+
+
 def _renorm_local(x: S) -> S:
     """the rewrites that the canonicaliser applies when it sees a construct, applied again after locals have been looked
     through (so that the normal form does not depend on whether a value sat in a local): tests (`len(x) > 0` is `x`),
@@ -1470,7 +1480,9 @@ def _renorm_local(x: S) -> S:
     if t == "or" and len(x) == 2 and isinstance(x[1], tuple):
         return mk_or([_truth(y) for y in x[1]])
     if t == "comp" and len(x) == 4:
-        return ("comp", x[1], x[2], tuple((g[0], g[1], _truth(g[2])) for g in x[3]))
+        return ("comp", x[1], x[2], tuple((g[0], _chained(g[1]), _truth(g[2])) for g in x[3]))
+    if t == "for" and len(x) == 5:
+        return ("for", x[1], _chained(x[2]), x[3], x[4])
     # a constant table read at one of its keys; membership in a constant table
     if t == "s" and len(x) == 3 and isinstance(x[1], tuple) and x[1][:1] == ("dict",) and len(x[1]) == 2 and _is_sym_const(x[2]) \
             and all(_is_sym_const(k) for k, _ in x[1][1]):
@@ -2882,7 +2894,26 @@ def _index_loops(block: tuple) -> tuple:
             inner = (conv(("for", v, src, inner, ())),)
         return inner[0]
 
+    def combinations_loop(st):
+        """``for a, b in combinations(range(lo, n), 2): body`` (no break in body) is ``for a in range(lo, n): for b in range(a + 1, n): body``"""
+        var, it, body = st[1], st[2], st[3]
+        if not (isinstance(var, tuple) and var[:1] == ("tuple",) and len(var[1]) == 2 and isinstance(it, tuple) and it[:1] == ("c",) and not it[3]
+                and it[1] in (("g", "combinations"), ("a", ("g", "itertools"), "combinations")) and len(it[2]) == 2 and it[2][1] == k_num(2)
+                and isinstance(it[2][0], tuple) and it[2][0][:2] == ("c", ("g", "range")) and not it[2][0][3] and len(it[2][0][2]) in (1, 2)
+                and not own_break(body)):
+            return st
+        rargs = it[2][0][2]
+        hi = rargs[-1]
+        if any(contains(a, v) for a in rargs for v in var[1]):
+            return st
+        a, b = var[1]
+        inner_rng = ("c", ("g", "range"), ((to_poly(a) + to_poly(k_num(1))).to_s(), hi), ())
+        return conv(("for", a, it[2][0], (conv(("for", b, inner_rng, tuple(body), ())),), ()))
+
     def conv(st):
+        if not (isinstance(st, tuple) and st and st[0] == "for" and len(st) == 5 and not st[4]):
+            return st
+        st = combinations_loop(st)
         if not (isinstance(st, tuple) and st and st[0] == "for" and len(st) == 5 and not st[4]):
             return st
         st = product_loop(st)
